@@ -64,6 +64,53 @@ let tok o f = match o with None -> "Err" | Some i -> "Ok:" ^ f i
 
 let rec firstn_ml k l = if k <= 0 then [] else match l with [] -> [] | x :: t -> x :: firstn_ml (k - 1) t
 
+
+(* "<i>:<line hex>;..." -> [(i, line)]: header lines the real VCF header parser refuses *)
+let parse_ltab s =
+  if s = "" || s = "_" then [] else
+    List.map (fun part -> match split_on ':' part with
+      | [i; l] -> (n_of_int (int_of_string i), bytes_of_hex l)
+      | _ -> failwith "ltab") (split_on ';' s)
+
+(* one token per cut of a file with a header: "E:<error>" when the header read fails, else
+   "<header>:<n records>:<stop>"; the header token is printed in full at the first cut that
+   yields one and as "=" while it stays the same *)
+let fmt_file_cuts cuts f hdr_tok =
+  let first = ref None in
+  String.concat " " (List.map (fun k ->
+    let (h, (n, s)) = f k in
+    match h with
+    | None -> "E:" ^ stop_text s
+    | Some h ->
+        let t = hdr_tok h in
+        let t' = (match !first with
+          | None -> first := Some t; t
+          | Some t0 -> if t0 = t then "=" else t) in
+        t' ^ ":" ^ string_of_int (int_of_n n) ^ ":" ^ stop_text s) cuts)
+
+(* the same without the "=" abbreviation (text headers differ from cut to cut) *)
+let fmt_file_cuts_plain cuts f hdr_tok =
+  String.concat " " (List.map (fun k ->
+    let (h, (n, s)) = f k in
+    match h with
+    | None -> "E:" ^ stop_text s
+    | Some h -> hdr_tok h ^ ":" ^ string_of_int (int_of_n n) ^ ":" ^ stop_text s) cuts)
+
+let bam_hdr_tok = function Some t -> hex_of_bytes t | None -> "W"
+
+(* short canonical form of a header text: length and the two Adler-32 halves (as the harness) *)
+let cks (bs : n list) =
+  let (a, b) = List.fold_left (fun (a, b) x ->
+    let a' = (a + (int_of_n x land 255)) mod 65521 in (a', (b + a') mod 65521)) (1, 0) bs in
+  Printf.sprintf "%d.%d.%d" (List.length bs) a b
+let sam_hdr_tok = function Some t -> cks t | None -> "W"
+
+let parse_rejected s =
+  if s = "_" || s = "" then [] else
+    List.map (fun part -> match split_on ':' part with
+      | [l; c] -> (bytes_of_hex l, n_of_int (int_of_string c))
+      | _ -> failwith "rejected") (split_on ';' s)
+
 let handle kind a =
   match kind with
   | "bamraw" | "bcfraw" | "bcfeager" ->
@@ -148,6 +195,64 @@ let handle kind a =
         ^ (if cs = [] then "_" else String.concat "+" (List.map (fun (l, (n, m)) ->
              dec_of_n l ^ "/" ^ dec_of_n n ^ "/" ^ dec_of_n m) cs))
         ^ ":" ^ stop_text s) cuts))
+  | "bamhf" ->
+      let bs = bytes_of_hex a.(0) in
+      let cuts = parse_cuts a.(1) (hex_len a.(0)) in
+      Some (fmt_file_cuts cuts (fun k -> obs_bam_file (nat_of_int k) bs) bam_hdr_tok)
+  | "bcfhf" ->
+      let bs = bytes_of_hex a.(0) in
+      let tab = parse_ltab a.(1) in
+      let nfin = n_of_int (int_of_string a.(2)) in
+      let cuts = parse_cuts a.(3) (hex_len a.(0)) in
+      Some (fmt_file_cuts cuts (fun k -> obs_bcf_file tab nfin (nat_of_int k) bs) (fun _ -> "H"))
+  | "bamhz" ->
+      let bs = bytes_of_hex a.(0) in
+      let itab = parse_table a.(0) a.(1) in
+      let cuts = parse_cuts a.(2) (hex_len a.(0)) in
+      Some (fmt_file_cuts cuts (fun k -> obs_bam_filez itab (nat_of_int k) bs) bam_hdr_tok)
+  | "bcfhz" ->
+      let bs = bytes_of_hex a.(0) in
+      let itab = parse_table a.(0) a.(1) in
+      let tab = parse_ltab a.(2) in
+      let nfin = n_of_int (int_of_string a.(3)) in
+      let cuts = parse_cuts a.(4) (hex_len a.(0)) in
+      Some (fmt_file_cuts cuts (fun k -> obs_bcf_filez itab tab nfin (nat_of_int k) bs) (fun _ -> "H"))
+  | "samth" ->
+      let bs = bytes_of_hex a.(0) in
+      let rej = parse_rejected a.(1) in
+      let cuts = parse_cuts a.(2) (hex_len a.(0)) in
+      Some (fmt_file_cuts_plain cuts (fun k -> obs_sam_text rej (nat_of_int k) bs) sam_hdr_tok)
+  | "vcfth" ->
+      let bs = bytes_of_hex a.(0) in
+      let tab = parse_ltab a.(1) in
+      let nfin = n_of_int (int_of_string a.(2)) in
+      let rej = parse_rejected a.(3) in
+      let cuts = parse_cuts a.(4) (hex_len a.(0)) in
+      Some (fmt_file_cuts_plain cuts (fun k -> obs_vcf_text tab nfin rej (nat_of_int k) bs) (fun _ -> "H"))
+  | "samthz" ->
+      let bs = bytes_of_hex a.(0) in
+      let itab = parse_table a.(0) a.(1) in
+      let rej = parse_rejected a.(2) in
+      let cuts = parse_cuts a.(3) (hex_len a.(0)) in
+      Some (fmt_file_cuts_plain cuts (fun k -> obs_sam_textz itab rej (nat_of_int k) bs) sam_hdr_tok)
+  | "vcfthz" ->
+      let bs = bytes_of_hex a.(0) in
+      let itab = parse_table a.(0) a.(1) in
+      let tab = parse_ltab a.(2) in
+      let nfin = n_of_int (int_of_string a.(3)) in
+      let rej = parse_rejected a.(4) in
+      let cuts = parse_cuts a.(5) (hex_len a.(0)) in
+      Some (fmt_file_cuts_plain cuts (fun k -> obs_vcf_textz itab tab nfin rej (nat_of_int k) bs) (fun _ -> "H"))
+  | "cramb" ->
+      let body = bytes_of_hex a.(2) in
+      let lms = if a.(3) = "_" then [] else List.map (fun x -> n_of_int (int_of_string x)) (split_on ',' a.(3)) in
+      let cuts = parse_cuts a.(4) (hex_len a.(2)) in
+      let code c = match int_of_n c with 0 -> "ok" | _ -> stop_text c in
+      Some (String.concat " " (List.filter_map (fun k ->
+        if k = 0 then None else begin
+          let (ch, (ns, s)) = obs_cram_blocks lms (nat_of_int k) body in
+          Some (code ch ^ "/" ^ (if ns = [] then "_" else String.concat "+" (List.map dec_of_n ns)) ^ "/" ^ stop_text s)
+        end) cuts))
   | _ -> None
 
 let () = run_driver handle
